@@ -104,6 +104,10 @@ func gen(t *rapid.T) Script {
 	for i := 0; i < ns; i++ {
 		c := rapid.IntRange(0, n-1).Draw(t, "c")
 		switch {
+		case !connected[c] && rapid.IntRange(0, 5).Draw(t, "scanner") == 0:
+			// a connection that sends a ClientHello (this client's alternative one) and goes away before the
+			// handshake is over: whatever the proxy captured from it must die with it
+			s.Steps = append(s.Steps, Step{Op: "scanner", Client: c})
 		case !connected[c]:
 			s.Steps = append(s.Steps, Step{Op: "connect", Client: c})
 			connected[c] = true
@@ -147,6 +151,7 @@ func exec(t *testing.T, s Script) *vstat.Violation {
 	var failures []string
 	overlap := false
 	sameAddr := false
+	scanners := 0
 	protos := map[string]bool{}
 	msg := rig.Bubble(t, func() {
 		p := rig.StartProxy(rig.ProxyOpts{IdleTimeout: 10 * time.Minute, TLSHandshakeTimeout: 10 * time.Second})
@@ -231,6 +236,19 @@ func exec(t *testing.T, s Script) *vstat.Violation {
 				} else {
 					cs.h1 = rig.NewH1(c.Conn)
 				}
+			case "scanner":
+				raw, _, err := p.Ln.Dial(rig.DialOpts{Remote: &net.TCPAddr{IP: net.ParseIP(cl.PeerIP), Port: 29000 + st.Client}})
+				if err != nil {
+					return
+				}
+				raw.Write(cl.AltSpec.Render().Record())
+				if !s.Free {
+					rig.Wait() // the proxy has read the hello and answered
+				}
+				raw.Close()
+				mu.Lock()
+				scanners++
+				mu.Unlock()
 			case "request":
 				if cs.conn == nil || cs.failure != "" {
 					return
@@ -419,7 +437,10 @@ func exec(t *testing.T, s Script) *vstat.Violation {
 		cl = append(cl, "reconnect-from-the-same-ip:port")
 	}
 	if s.SyncConnect {
-		cl = append(cl, "handshakes-complete-at-the-same-instant")
+		cl = append(cl, "handshakes-complete-at-the-same-instant", "hello-then-gone-before-the-handshake-ends")
+	}
+	if scanners > 0 {
+		cl = append(cl, "hello-then-gone-before-the-handshake-ends")
 	}
 	nt := overlap && protos["h2"] && (protos["http/1.1"] || protos[""])
 	col.Case(fmt.Sprintf("%+v", s), nt, map[string]any{"clients": len(s.Clients), "steps": len(s.Steps), "free": s.Free, "requests": len(reqs), "classes": cl}, cl...)
